@@ -17,9 +17,13 @@ type loopSummary struct {
 	checked  int  // worlds examined
 	seqVals  []ssa.Value
 	problems []string
-	lawSig   map[string]map[string]bool
+	lawSig   map[string]*coreSet
 	lawN     map[string]int
 	lawFirst map[string]string
+	// tieEq: element terms ("…[i].f") that are consulted and equal in every abstract position world
+	// where the position ties with both sides present: a tie of the whole zip implies they are equal
+	// at every index, in particular at [0]
+	tieEq []string
 }
 
 type needLoop struct {
